@@ -1111,7 +1111,7 @@ func (fr *Frame) closureLocal(mc *ssa.MakeClosure) bool {
 		case *ssa.Call:
 			if u.Call.Value != mc {
 				// closures handed to higher-order functions with built-in handling stay local
-				if callee := u.Call.StaticCallee(); callee != nil && canonFunc(callee) == "sort.Search" {
+				if callee := u.Call.StaticCallee(); callee != nil && (canonFunc(callee) == "sort.Search" || canonFunc(callee) == "sort.Slice") {
 					continue
 				}
 				return false
